@@ -250,24 +250,39 @@ example : (processCell (A := toy)
 
 /-- **Every payload of an end-to-end circuit reaches `on_raw_data`**, whatever it looks like (IPv8-looking, BitTorrent-
     looking, empty, …), on the downloader's and on the seeder's circuit alike: the circuit *type* decides. -/
-theorem e2e_data_reaches_raw (ct : CType) (h : isE2EType ct = true) (pfx data : Bytes) (tunnelEp destZero : Bool) :
-    onDataSink (some ct) true true pfx tunnelEp destZero data = .raw := by
+theorem e2e_data_reaches_raw (ct : CType) (h : isE2EType ct = true) (pfx data : Bytes) (tunnelEp destZero : Bool)
+    (exitIds : List UInt8) :
+    onDataSink (some ct) true true pfx tunnelEp destZero data exitIds = .raw := by
   simp [onDataSink, h]
 
-/-- on every other own circuit exactly the IPv8-looking payloads are diverted (re-injected as tunnel-community packet or
-    handed to the other communities); everything else reaches `on_raw_data` -/
-theorem plain_data_sink (ct : CType) (h : isE2EType ct = false) (pfx data : Bytes) (tunnelEp destZero : Bool) :
-    onDataSink (some ct) true true pfx tunnelEp destZero data =
+/-- on every other own circuit exactly the IPv8-looking payloads are diverted: a packet with the tunnel community's own
+    prefix is re-dispatched only when its message id is registered to arrive through an exit (`exit_msg_ids`) and is
+    refused otherwise; other prefixes go to the other communities (or nowhere without a TunnelEndpoint); everything that
+    is not IPv8-looking reaches `on_raw_data` -/
+theorem plain_data_sink (ct : CType) (h : isE2EType ct = false) (pfx data : Bytes) (tunnelEp destZero : Bool)
+    (exitIds : List UInt8) :
+    onDataSink (some ct) true true pfx tunnelEp destZero data exitIds =
       (if couldBeIpv8 data then
-         (if data.take 22 == pfx then (if data[22]? == some 1 then .droppedNestedData else .ownPacket)
+         (if data.take 22 == pfx then ownPrefixSink exitIds data
           else if tunnelEp then .otherCommunity else .droppedNoTunnelEndpoint)
        else .raw) := by
   simp [onDataSink, h]
 
+/-- in the base TunnelCommunity (no message registered to arrive through an exit) no payload of a DATA cell is ever
+    re-dispatched as a cell message -/
+theorem nothing_redispatched_without_registration (own : Option CType) (o f t z : Bool) (pfx data : Bytes) :
+    onDataSink own o f pfx t z data [] ≠ .ownPacket := by
+  have h0 : ownPrefixSink [] data ≠ .ownPacket := by
+    unfold ownPrefixSink; split <;> simp
+  unfold onDataSink
+  cases own <;> simp <;> (repeat' split) <;> simp [h0]
+
 example : onDataSink (some .rpSeeder) true true [0, 2] false true
     ([0, 2] ++ List.replicate 30 (7 : UInt8)) = .raw := by decide
 example : onDataSink (some .data) true true ([0, 2] ++ List.replicate 20 (7 : UInt8)) false true
-    ([0, 2] ++ List.replicate 30 (7 : UInt8)) = .ownPacket := by decide
+    ([0, 2] ++ List.replicate 30 (7 : UInt8)) [7] = .ownPacket := by decide
+example : onDataSink (some .data) true true ([0, 2] ++ List.replicate 20 (7 : UInt8)) false true
+    ([0, 2] ++ List.replicate 30 (7 : UInt8)) [13, 14] = .droppedNestedData := by decide
 
 /-- **Data from a foreign address is never taken for circuit data.**  `on_data` treats a DATA message as data of an own
     circuit only if the FULL address (ip and port) of the peer that delivered it equals the circuit's first hop; this also
@@ -275,7 +290,7 @@ example : onDataSink (some .data) true true ([0, 2] ++ List.replicate 20 (7 : UI
     peer" is the Internet origin).  From any other address the message takes the exit branch, never a local sink. -/
 theorem foreign_source_never_local (ct : CType) (src hop : Nat × Nat) (h : src ≠ hop) (pfx data : Bytes)
     (tunnelEp destZero originSet : Bool) :
-    onDataSink (some ct) originSet (fromFirstHop src hop) pfx tunnelEp destZero data =
+    onDataSink (some ct) originSet (fromFirstHop src hop) pfx tunnelEp destZero data [] =
       (if destZero then .droppedZeroDest else .exitSocket) := by
   have hf : fromFirstHop src hop = false := by
     obtain ⟨a, b⟩ := src; obtain ⟨c, d⟩ := hop
